@@ -157,6 +157,8 @@ class PanicAudit:
         return None
 
     def counts(self):
+        """undischarged potential panic sites per (source file, kind) -- keyed per file so that moving code between
+        functions of one file does not change the counts; `where` keeps the functions for the report"""
         c = collections.defaultdict(lambda: collections.Counter())
         where = collections.defaultdict(list)
         total = 0
@@ -166,8 +168,9 @@ class PanicAudit:
             if why:
                 discharged += 1
                 continue
-            c[fn['qual']][kind] += 1
-            where[(fn['qual'], kind)].append('%s  [%s]' % (fn['blocks'][bi]['ln'], text))
+            fl = fn['loc'].rsplit(':', 1)[0]
+            c[fl][kind] += 1
+            where[(fl, kind)].append('%s  %s [%s]' % (fn['blocks'][bi]['ln'], fn['qual'], text))
         return c, where, total, discharged
 
 
@@ -198,8 +201,8 @@ def panic_audit(P, entry_quals, baseline_name, config, label):
         for kind, n in sorted(c[q].items()):
             b = base.get(q, {}).get(kind, 0)
             if n > b:
-                r.bad('fn=%s|kind=%s' % (q, kind),
-                      '`%s` (reachable from %s) has %d undischarged potential panic site(s) of kind %s, the reviewed baseline has %d: '
+                r.bad('file=%s|kind=%s' % (q, kind),
+                      '%s (code reachable from %s) has %d undischarged potential panic site(s) of kind %s, the reviewed baseline has %d: '
                       'a guard was removed or a new panicking operation was added on the attack surface'
-                      % (q, label, n, kind, b), where=where[(q, kind)][:6])
+                      % (q, label, n, kind, b), where=where[(q, kind)][:8])
     return r, c, where
